@@ -47,6 +47,51 @@ def ordered_dags(names, kmax=2, consistent_only=True):
     return res
 
 
+NAMES5 = ["N", "X", "P", "Q", "W"]
+_dags5 = {}
+
+
+def layered_dags5(unequal_only):
+    """Ordered-base DAGs on five spaces in which every space takes at most two bases among the spaces named
+    before it (one representative per relabelling), linearisable; optionally only those in which some space
+    is reachable from an ancestor by paths of different lengths (the order of re-derivation matters there)."""
+    if unequal_only in _dags5:
+        return _dags5[unequal_only]
+    res = []
+    names = NAMES5
+    for combo in itertools.product(*[base_options(names[:i], 2) for i in range(len(names))]):
+        bases = {s: list(bs) for s, bs in zip(names, combo)}
+        g = nx.DiGraph()
+        g.add_nodes_from(names)
+        for s, bs in bases.items():
+            for b in bs:
+                g.add_edge(b, s)
+        if not nx.is_weakly_connected(g):
+            continue
+        rm = RefModel()
+        for s in names:
+            rm.new_space(s).bases = bases[s]
+        try:
+            for s in names:
+                rm.mro(s)
+        except NoLinearisation:
+            continue
+        if unequal_only:
+            uneq = False
+            for a in names:
+                for d in nx.descendants(g, a):
+                    if len({len(p) for p in nx.all_simple_paths(g, a, d)}) > 1:
+                        uneq = True
+                        break
+                if uneq:
+                    break
+            if not uneq:
+                continue
+        res.append(bases)
+    _dags5[unequal_only] = res
+    return res
+
+
 def xsrc(definer, alt=False):
     return 'lambda: "%s%s:" + str(y)' % (definer, "'" if alt else "")
 
